@@ -164,3 +164,29 @@ def prelude_guard(tree):
     i = p.index("(defn fmt [x]")
     p = p[:i] + '(defn snap [] (string (snap0) "/" (- (c05/stackn) BASE)))\n' + p[i:]
     return p + RUN_TREE_G
+
+
+RUN_TREE_GS = r'''
+(defn run-tree-gs [idx lim acts f flags &opt v0]
+  (set G @[(fiber/root)])
+  (set TR @[])
+  (def m (fiber/new f flags))
+  (array/push G m)
+  (set BASE 0)              # the loop dispatches tasks at janet_vm.stackn = 0: depths are absolute
+  (c05/set-guard lim)
+  (ev/go m v0)
+  (ev/sleep 0)
+  (each [k v] acts
+    (if (= k :c) (ev/cancel m v) (ev/go m v))
+    (ev/sleep 0))
+  (c05/set-guard 1024)
+  (print idx " " (string/join TR ";") " | done " (statnum (fiber/status m)) " " (fmt (fiber/last-value m)) " " (snap0))
+  (flush))
+'''
+
+
+def prelude_gsched(tree):
+    """prelude of the combined pass (harness/C05/guardmain.c under the event loop): the tree's root fiber is a task, the
+    recursion guard of vm.c is lowered to `lim` levels above the loop, janet_vm.stackn is logged with every event"""
+    p = prelude_guard(tree)
+    return p + RUN_TREE_GS
